@@ -3,7 +3,7 @@
 # checks given in $CHECKS (default: the property itself), record the outcome in result.json, undo the patch.
 set -u
 id=$1; name=${2:-$1}
-src=/tmp/wt_$id/_mutant
+src=${SRC:-/tmp/wt_$id/_mutant}
 dst=/verif/seeded/$name
 mkdir -p $dst
 cp $src/patch.diff $src/meta.json $dst/ 2>/dev/null
